@@ -254,7 +254,7 @@ pub enum Probe {
     SearchExpired,
     /// A step time-out was injected.
     TimeoutInjected,
-    /// A receiver was resumed after waiting for a message.
+    /// A receiver found its mailbox empty (and waits for a message).
     RecvWaited,
     /// Several same-key actions were chained in one sequence.
     SeqActions,
